@@ -322,11 +322,12 @@ def real_stages(m: onnx.ModelProto, call: dict, ctx: dict, lits: L.Lits) -> dict
             for extra in ad["extraVarNames"]:
                 var_names[argument(spox_type({"t": [TP.FLOAT, [2]]}))] = extra
             base = node.model
-            rec: dict[str, Any] = {"called": False, "raised": None, "result": None}
+            rec: dict[str, Any] = {"called": False, "raised": None, "result": None, "version": None}
             real_conv = onnx.version_converter.convert_version
 
             def spy(model, version):
                 rec["called"] = True
+                rec["version"] = version
                 try:
                     rec["result"] = real_conv(model, version)
                 except Exception as e:  # noqa: BLE001
@@ -349,6 +350,8 @@ def real_stages(m: onnx.ModelProto, call: dict, ctx: dict, lits: L.Lits) -> dict
             onnx.version_converter.convert_version = real_conv
         out["adapt_called"] = rec["called"]
         out["adapt_conv_raised"] = rec["raised"]
+        out["adapt_version"] = rec["version"]
+        out["adapt_target"] = ad["target"]
         if rec["result"] is not None:
             out["adapt_converted"] = L.abstract_graph(rec["result"].graph, lits)
         try:
@@ -387,6 +390,8 @@ def compare_stages(real: dict, model: dict, all_distinct: bool = True) -> Option
     if re_["nodes"] != me["nodes"]:
         return f"emitted nodes: real {json.dumps(re_['nodes'])[:600]} model {json.dumps(me['nodes'])[:600]}"
     ra, ma = real.get("adapt"), model.get("adapt")
+    if real.get("adapt_called") and real.get("adapt_version") != real.get("adapt_target"):
+        return f"adapt: converter asked for version {real.get('adapt_version')}, the target opset is {real.get('adapt_target')}"
     if ra is not None and not real.get("adapt_conv_raised"):
         if isinstance(ra, str) or isinstance(ma, str):
             if ra != ma:
@@ -463,6 +468,16 @@ def classify_build_error(m: onnx.ModelProto, e: BaseException) -> str:
     if any(o.name in ins for o in m.graph.output):
         return f"passthrough-output:{cls}"
     return f"build-raises:{cls}"
+
+
+def bump(v: int, x):
+    """The value of x, through an operator that exists only from opset v on (forces the target opset)."""
+    op = L.opset_module(v)
+    if v in (19, 21):
+        return op.identity(x)
+    if v in (18, 20):
+        return op.reduce_max(x, None, keepdims=1, noop_with_empty_axes=1)
+    return x
 
 
 def chainable(m: onnx.ModelProto, float_ins, float_outs) -> bool:
@@ -575,19 +590,18 @@ def oracle_compose(m: onnx.ModelProto, form: str, seed: int) -> list[tuple[str, 
                 f = inline(m)
                 d = direct(vals1, omit)
                 first_bytes = None
-                for step, v2 in enumerate([None, 17, 19, 21, None]):
-                    Ah = {i.name: arg_for(i) for i in m.graph.input}
-                    r = apply(f, Ah, npos, omit)
+                r = apply(f, A, npos, omit)  # ONE Inline node, built into several programs
+                for step, v2 in enumerate([None, 18, 21, 19, None]):
                     res = {}
                     for k, o in enumerate(outs):
                         if v2 is not None and o in float_outs:
-                            res[f"res_{k}"] = L.opset_module(v2).add(r[o], r[o])
+                            res[f"res_{k}"] = bump(v2, r[o])
                         else:
                             res[f"res_{k}"] = r[o]
-                    built = build({f"arg_{j}": Ah[n] for j, n in enumerate(ins)}, res)
+                    built = build(dict(outer_in), res)
                     got = dict(zip([o.name for o in built.graph.output], ort_run(built, feeds)))
                     for k, o in enumerate(outs):
-                        exp = d[o] + d[o] if (v2 is not None and o in float_outs) else d[o]
+                        exp = d[o]
                         if not same(got[f"res_{k}"], exp):
                             fails.append((f"result-mismatch:history", f"history step {step} (surroundings {v2}): output {k}: inlined {np.asarray(got[f'res_{k}']).tolist()} but m computes {np.asarray(exp).tolist()}"))
                             break
@@ -596,7 +610,7 @@ def oracle_compose(m: onnx.ModelProto, form: str, seed: int) -> list[tuple[str, 
                         if first_bytes is None:
                             first_bytes = b
                         elif b != first_bytes:
-                            fails.append(("history-dependent-build", "the same program built before and after other builds of the same inline callable differs"))
+                            fails.append(("history-dependent-build", "the same program (same Vars) built before and after other builds around the same Inline node differs"))
                 if m.SerializeToString(deterministic=True) != before:
                     fails.append(("m-modified", "history: the caller's model changed"))
                 return fails
@@ -645,7 +659,7 @@ def oracle_compose(m: onnx.ModelProto, form: str, seed: int) -> list[tuple[str, 
                 d = direct(vals1, omit)
                 for k, o in enumerate(outs):
                     if o in float_outs:
-                        results[f"res_{k}"], expected[f"res_{k}"] = op.add(r[o], r[o]), d[o] + d[o]
+                        results[f"res_{k}"], expected[f"res_{k}"] = bump(outer_v, r[o]), d[o]
                     else:
                         results[f"res_{k}"], expected[f"res_{k}"] = r[o], d[o]
             outer = build(outer_in, results)
@@ -819,6 +833,8 @@ def fixed_corner_models() -> list[tuple[onnx.ModelProto, dict]]:
     rs = mk([H.make_node("ReduceSum", ["x"], ["y"], axes=[0], keepdims=1)], [f2("x")], [f2("y", (1,))], opset=12)
     rs.ir_version = 7
     out.append((rs, ["opset-12", "no-chain"]))
+    rm = mk([H.make_node("ReduceMean", ["x"], ["y"], axes=[0], keepdims=1)], [f2("x")], [f2("y", (1,))], opset=13)
+    out.append((rm, ["opset-13", "no-chain", "attribute-becomes-input-at-18"]))
     # duplicate output names are accepted by onnx.checker and onnxruntime (duplicate inputs are not)
     out.append((mk([H.make_node("Abs", ["a"], ["y"]), H.make_node("Neg", ["y"], ["w"])], [f2("a")], [f2("y"), f2("w"), f2("y")]),
                 ["duplicate-output-names", "oracle-only"]))
@@ -845,7 +861,7 @@ def make_models(ck: core.Check, n_hand: int, n_spox: int):
     rng = ck.rng
     models = list(fixed_corner_models())
     dropped = 0
-    while len(models) < 10 + n_hand:
+    while len(models) < 11 + n_hand:
         m, meta = L.HandGen(rng).model()
         if valid(m, meta["runnable"], rng):
             models.append((m, meta))
